@@ -39,7 +39,11 @@ def cases(res):
         s = {"qp": qp, "use_fixed_qindex_offsets": 1, "key_frame_qindex_offset": koff}
         for i in range(6):
             s["qindex_offsets[%d]" % i] = off
-        add(12, s, {"qfixed": 1, "qkey": clip(Q(1), Q(63), Q(qp) + koff), "qinter": clip(Q(1), Q(63), Q(qp) + off)})
+        # 18 pictures = key frame + one complete 16-picture mini-GOP: every temporal layer 0..4 occurs (12 pictures stop at layer 3)
+        add(18, s, {"qfixed": 1, "qkey": clip(Q(1), Q(63), Q(qp) + koff), "qinter": clip(Q(1), Q(63), Q(qp) + off)})
+        for hl in (3, 2):
+            s2 = dict(s, hierarchical_levels=hl)
+            add(18, s2, {"qfixed": 1, "qkey": clip(Q(1), Q(63), Q(qp) + koff), "qinter": clip(Q(1), Q(63), Q(qp) + off)})
     # CQP with QP scaling / TPL: inside (1,63)
     for qp in (2, 35, 63):
         for tpl in (0, 1):
